@@ -22,11 +22,88 @@ pub struct Case {
     pub suffix: Vec<u8>,
     /// convert through From<&DltFilterConfig> instead of From<DltFilterConfig>
     pub borrowed: bool,
+    /// 1: the processed configuration is written as a struct literal (its fields are public) instead of being converted;
+    /// 2: converted, then one absent/present criterion edited in place to the model's value (no-op edit)
+    #[serde(default)]
+    pub handbuilt: u8,
+    /// also read a stream "sibling, message, sibling, message .." through ONE reader with the filter, the siblings
+    /// differing from the message in a single header field (ECU id, application id, context id, level)
+    #[serde(default)]
+    pub siblings: bool,
+}
+
+/// the processed configuration written down directly from the model (levels 1..=6 name a level, others none)
+fn literal_config(f: &Filter) -> ProcessedDltFilterConfig {
+    use dlt_core::dlt::LogLevel;
+    let set = |l: &Option<Vec<String>>| {
+        l.as_ref().map(|v| {
+            v.iter()
+                .cloned()
+                .collect::<std::collections::HashSet<String>>()
+        })
+    };
+    ProcessedDltFilterConfig {
+        min_log_level: match f.min_log_level {
+            Some(1) => Some(LogLevel::Fatal),
+            Some(2) => Some(LogLevel::Error),
+            Some(3) => Some(LogLevel::Warn),
+            Some(4) => Some(LogLevel::Info),
+            Some(5) => Some(LogLevel::Debug),
+            Some(6) => Some(LogLevel::Verbose),
+            _ => None,
+        },
+        app_ids: set(&f.app_ids),
+        ecu_ids: set(&f.ecu_ids),
+        context_ids: set(&f.context_ids),
+        app_id_count: f.app_id_count,
+        context_id_count: f.context_id_count,
+    }
+}
+
+/// variants of a message that differ in one header field the filter looks at
+fn siblings_of(f: &Filter, m: &RMsg) -> Vec<RMsg> {
+    let other = |list: &Option<Vec<String>>, cur: &str| -> String {
+        match list {
+            Some(l) if l.iter().any(|x| x == cur) => "ZZZ".to_string(),
+            // (an allowed id, if the list holds one that is a well-formed id: at most 4 bytes, no NUL)
+            Some(l) => l
+                .iter()
+                .find(|x| x.len() <= 4 && !x.contains('\0'))
+                .cloned()
+                .unwrap_or_else(|| "ZZZ".to_string()),
+            _ => "ZZZ".to_string(),
+        }
+    };
+    let mut out = vec![];
+    if let Some(e) = &m.ecu {
+        let mut v = m.clone();
+        v.ecu = Some(other(&f.ecu_ids, e));
+        out.push(v);
+    }
+    if let Some(x) = &m.ext {
+        let mut v = m.clone();
+        v.ext.as_mut().unwrap().apid = other(&f.app_ids, &x.apid);
+        out.push(v);
+        let mut v = m.clone();
+        v.ext.as_mut().unwrap().ctid = other(&f.context_ids, &x.ctid);
+        out.push(v);
+        if (x.msin >> 1) & 7 == 0 {
+            // another level: the most severe one if the message is not fatal, the least severe one otherwise
+            let mut v = m.clone();
+            let lvl = if x.msin >> 4 == 1 { 6 } else { 1 };
+            v.ext.as_mut().unwrap().msin = (x.msin & 0x0f) | (lvl << 4);
+            out.push(v);
+        }
+    }
+    out
 }
 
 /// the decision the statement prescribes; returns (dropped, reason)
 pub fn decide(f: &Filter, m: &RMsg) -> (bool, &'static str) {
-    let set = |l: &Option<Vec<String>>| l.as_ref().map(|v| v.iter().cloned().collect::<BTreeSet<String>>());
+    let set = |l: &Option<Vec<String>>| {
+        l.as_ref()
+            .map(|v| v.iter().cloned().collect::<BTreeSet<String>>())
+    };
     let (apps, ctxs, ecus) = (set(&f.app_ids), set(&f.context_ids), set(&f.ecu_ids));
     match &m.ext {
         Some(e) => {
@@ -73,44 +150,121 @@ pub fn decide(f: &Filter, m: &RMsg) -> (bool, &'static str) {
 
 pub fn check(c: &Case) -> CheckResult {
     let cfg = c.filter.to_crate();
-    let pf = if c.borrowed { ProcessedDltFilterConfig::from(&cfg) } else { ProcessedDltFilterConfig::from(cfg) };
+    let mut pf = if c.handbuilt == 1 {
+        literal_config(&c.filter)
+    } else if c.borrowed {
+        ProcessedDltFilterConfig::from(&cfg)
+    } else {
+        ProcessedDltFilterConfig::from(cfg)
+    };
+    if c.handbuilt == 2 {
+        // a converted configuration whose public fields are written again with the same content
+        let lit = literal_config(&c.filter);
+        pf.app_ids = lit.app_ids;
+        pf.context_ids = lit.context_ids;
+        pf.ecu_ids = lit.ecu_ids;
+        pf.app_id_count = lit.app_id_count;
+        pf.context_id_count = lit.context_id_count;
+    }
     let storage = c.msg.storage.is_some();
     let mut buf = to_crate(&c.msg).as_bytes();
     let msg_len = buf.len();
     buf.extend_from_slice(&c.suffix);
     let (dropped, reason) = decide(&c.filter, &c.msg);
-    let plain = guard(|| dlt_message(&buf, None, storage).map(|(r, pm)| (r.len(), pm))).map_err(|p| Violation::from_panic("dlt_message without filter", &p))?;
-    let filtered = guard(|| dlt_message(&buf, Some(&pf), storage).map(|(r, pm)| (r.len(), pm))).map_err(|p| Violation::from_panic("dlt_message with filter", &p))?;
-    let ctx = || format!("filter={:?} (borrowed conversion: {}) message={}", c.filter, c.borrowed, hex_short(&buf[..msg_len]));
+    let plain = guard(|| dlt_message(&buf, None, storage).map(|(r, pm)| (r.len(), pm)))
+        .map_err(|p| Violation::from_panic("dlt_message without filter", &p))?;
+    let filtered = guard(|| dlt_message(&buf, Some(&pf), storage).map(|(r, pm)| (r.len(), pm)))
+        .map_err(|p| Violation::from_panic("dlt_message with filter", &p))?;
+    let ctx = || {
+        format!(
+            "filter={:?} (borrowed conversion: {}) message={}",
+            c.filter,
+            c.borrowed,
+            hex_short(&buf[..msg_len])
+        )
+    };
     let Ok((rest_plain, ParsedMessage::Item(pm))) = &plain else {
-        return Err(viol!("filter:unfiltered-parse", "well-formed message does not parse without filter: {}", short_dbg(&plain)));
+        return Err(viol!(
+            "filter:unfiltered-parse",
+            "well-formed message does not parse without filter: {}",
+            short_dbg(&plain)
+        ));
     };
     let payload_len = c.msg.len as usize - c.msg.headers_len();
-    let judge = |got: &Result<(usize, ParsedMessage), dlt_core::parse::DltParseError>, via: &str| -> Result<(), Violation> {
+    let judge = |got: &Result<(usize, ParsedMessage), dlt_core::parse::DltParseError>,
+                 via: &str|
+     -> Result<(), Violation> {
         match got {
             Ok((rest, ParsedMessage::FilteredOut(n))) => {
                 if !dropped {
-                    return Err(viol!(format!("filter:{}:dropped-but-should-keep", reason), "{}: message was filtered out but the criteria keep it ({}); {}", via, reason, ctx()));
+                    return Err(viol!(
+                        format!("filter:{}:dropped-but-should-keep", reason),
+                        "{}: message was filtered out but the criteria keep it ({}); {}",
+                        via,
+                        reason,
+                        ctx()
+                    ));
                 }
                 if *n != payload_len {
-                    return Err(viol!("filter:marker-payload-length", "{}: FilteredOut({}) but the payload has {} bytes; {}", via, n, payload_len, ctx()));
+                    return Err(viol!(
+                        "filter:marker-payload-length",
+                        "{}: FilteredOut({}) but the payload has {} bytes; {}",
+                        via,
+                        n,
+                        payload_len,
+                        ctx()
+                    ));
                 }
                 if rest != rest_plain {
-                    return Err(viol!("filter:remainder", "{}: filtered parse leaves {} bytes, unfiltered {}; {}", via, rest, rest_plain, ctx()));
+                    return Err(viol!(
+                        "filter:remainder",
+                        "{}: filtered parse leaves {} bytes, unfiltered {}; {}",
+                        via,
+                        rest,
+                        rest_plain,
+                        ctx()
+                    ));
                 }
                 Ok(())
             }
             Ok((rest, ParsedMessage::Item(m))) => {
                 if dropped {
-                    return Err(viol!(format!("filter:{}:kept-but-should-drop", reason), "{}: message was kept but fails the criteria ({}); {}", via, reason, ctx()));
+                    return Err(viol!(
+                        format!("filter:{}:kept-but-should-drop", reason),
+                        "{}: message was kept but fails the criteria ({}); {}",
+                        via,
+                        reason,
+                        ctx()
+                    ));
                 }
-                msg_eq_bits(pm, m).map_err(|d| viol!("filter:kept-differs", "{}: kept message differs from the unfiltered parse: {}; {}", via, d, ctx()))?;
+                msg_eq_bits(pm, m).map_err(|d| {
+                    viol!(
+                        "filter:kept-differs",
+                        "{}: kept message differs from the unfiltered parse: {}; {}",
+                        via,
+                        d,
+                        ctx()
+                    )
+                })?;
                 if rest != rest_plain {
-                    return Err(viol!("filter:remainder", "{}: kept parse leaves {} bytes, unfiltered {}; {}", via, rest, rest_plain, ctx()));
+                    return Err(viol!(
+                        "filter:remainder",
+                        "{}: kept parse leaves {} bytes, unfiltered {}; {}",
+                        via,
+                        rest,
+                        rest_plain,
+                        ctx()
+                    ));
                 }
                 Ok(())
             }
-            other => Err(viol!("filter:result", "{}: unexpected result {}; {}", via, short_dbg(other), ctx())),
+            other => Err(viol!(
+                "filter:result",
+                "{}: unexpected result {}; {}",
+                via,
+                short_dbg(other),
+                ctx()
+            )),
         }
     };
     judge(&filtered, "dlt_message")?;
@@ -122,11 +276,120 @@ pub fn check(c: &Case) -> CheckResult {
     .map_err(|p| Violation::from_panic("read_message with filter", &p))?;
     let as_parse = match via_reader {
         Ok(Some(pm)) => Ok((*rest_plain, pm)),
-        Ok(None) => return Err(viol!("filter:reader-end", "read_message returned end of stream for a complete message; {}", ctx())),
+        Ok(None) => {
+            return Err(viol!(
+                "filter:reader-end",
+                "read_message returned end of stream for a complete message; {}",
+                ctx()
+            ))
+        }
         Err(e) => Err(e),
     };
     judge(&as_parse, "read_message")?;
-    let present = c.filter.min_log_level.is_some() as u8 + c.filter.app_ids.is_some() as u8 + c.filter.context_ids.is_some() as u8 + c.filter.ecu_ids.is_some() as u8;
+    // "message for message": a whole stream through one reader / one thread; each verdict depends on that message alone
+    let mut n_siblings = 0;
+    if c.siblings {
+        let sibs = siblings_of(&c.filter, &c.msg);
+        n_siblings = sibs.len();
+        let mut seq: Vec<&RMsg> = vec![];
+        for v in &sibs {
+            seq.push(v);
+            seq.push(&c.msg);
+        }
+        let encs: Vec<Vec<u8>> = seq.iter().map(|m| to_crate(m).as_bytes()).collect();
+        let stream: Vec<u8> = encs.concat();
+        let outs = guard(|| {
+            let mut reader = DltMessageReader::with_capacity(65551, 65551, &stream[..], storage);
+            (0..seq.len())
+                .map(|_| read_message(&mut reader, Some(&pf)))
+                .collect::<Vec<_>>()
+        })
+        .map_err(|p| Violation::from_panic("read_message with filter over a stream", &p))?;
+        let mut rest: &[u8] = &stream;
+        for (i, (m, out)) in seq.iter().zip(outs).enumerate() {
+            let (drop_i, why) = decide(&c.filter, m);
+            let plen = m.len as usize - m.headers_len();
+            let sliced =
+                guard(|| dlt_message(rest, Some(&pf), storage).map(|(r, pm)| (r.len(), pm)))
+                    .map_err(|p| {
+                        Violation::from_panic("dlt_message with filter over a stream", &p)
+                    })?;
+            rest = &rest[encs[i].len()..];
+            let via_reader = match out {
+                Ok(Some(pm)) => Ok((rest.len(), pm)),
+                Ok(None) => {
+                    return Err(viol!(
+                        "filter:stream:reader-end",
+                        "read_message returned end of stream at message {} of {}; {}",
+                        i,
+                        seq.len(),
+                        ctx()
+                    ))
+                }
+                Err(e) => Err(e),
+            };
+            for (got, via) in [(&sliced, "dlt_message"), (&via_reader, "read_message")] {
+                let sibling = || {
+                    format!(
+                        "message {} of the stream (sibling differing in one header field: {})",
+                        i,
+                        hex_short(&encs[i])
+                    )
+                };
+                match got {
+                    Ok((r, ParsedMessage::FilteredOut(n)))
+                        if drop_i && *n == plen && *r == rest.len() => {}
+                    Ok((r, ParsedMessage::Item(x))) if !drop_i && *r == rest.len() => {
+                        let alone = guard(|| dlt_message(&encs[i], None, storage))
+                            .map_err(|p| Violation::from_panic("dlt_message without filter", &p))?;
+                        match alone {
+                            Ok((_, ParsedMessage::Item(a))) => msg_eq_bits(&a, x).map_err(|d| {
+                                viol!(
+                                    "filter:stream:kept-differs",
+                                    "{}: {} kept, but differs from its unfiltered parse: {}; {}",
+                                    via,
+                                    sibling(),
+                                    d,
+                                    ctx()
+                                )
+                            })?,
+                            other => {
+                                return Err(viol!(
+                                    "filter:unfiltered-parse",
+                                    "well-formed message does not parse without filter: {}",
+                                    short_dbg(&other)
+                                ))
+                            }
+                        }
+                    }
+                    other => {
+                        return Err(viol!(
+                            format!(
+                                "filter:stream:{}:{}",
+                                why,
+                                if drop_i { "should-drop" } else { "should-keep" }
+                            ),
+                            "{} in a stream: {} must be {} ({}), got {}; {}",
+                            via,
+                            sibling(),
+                            if drop_i {
+                                format!("FilteredOut({})", plen)
+                            } else {
+                                "kept".to_string()
+                            },
+                            why,
+                            short_dbg(other),
+                            ctx()
+                        ))
+                    }
+                }
+            }
+        }
+    }
+    let present = c.filter.min_log_level.is_some() as u8
+        + c.filter.app_ids.is_some() as u8
+        + c.filter.context_ids.is_some() as u8
+        + c.filter.ecu_ids.is_some() as u8;
     let invalid_level = matches!(&c.msg.ext, Some(e) if (e.msin >> 1) & 7 == 0 && !(1..=6).contains(&(e.msin >> 4)));
     let min_out_of_range = matches!(c.filter.min_log_level, Some(l) if !(1..=6).contains(&l));
     Ok(Pass::new(present >= 1)
@@ -143,44 +406,88 @@ pub fn check(c: &Case) -> CheckResult {
         .class_if(invalid_level, "message:invalid-log-level")
         .class_if(min_out_of_range, "filter:min-level-outside-1..6")
         .class_if(c.msg.ecu.is_none(), "message:no-ecu-id")
-        .class_if(c.borrowed, "conversion:borrowed")
+        .class_if(c.borrowed && c.handbuilt != 1, "conversion:borrowed")
+        .class_if(c.handbuilt == 1, "configuration:struct-literal")
+        .class_if(c.handbuilt == 2, "configuration:converted-then-rewritten")
+        .class_if(n_siblings > 0, "stream-of-siblings-through-one-reader")
         .class_if(present == 0, "filter:no-criterion"))
 }
 
 pub fn strategy() -> impl Strategy<Value = Case> {
     (
         filter(),
-        g::message(g::MsgParams { large: false, pool_ids: true, ..Default::default() }),
+        g::message(g::MsgParams {
+            large: false,
+            pool_ids: true,
+            ..Default::default()
+        }),
         g::suffix(),
         any::<bool>(),
-        (prop::bool::weighted(0.5), any::<[bool; 3]>(), prop::bool::weighted(0.4)),
+        (
+            prop::bool::weighted(0.5),
+            any::<[bool; 3]>(),
+            prop::bool::weighted(0.4),
+        ),
+        (
+            prop_oneof![6 => Just(0u8), 2 => Just(1u8), 1 => Just(2u8)],
+            prop::bool::weighted(0.25),
+        ),
     )
-        .prop_map(|(filter, msg, suffix, borrowed, (force_log, own, valid_min))| assemble(filter, msg, suffix, borrowed, force_log, own, valid_min))
+        .prop_map(
+            |(
+                filter,
+                msg,
+                suffix,
+                borrowed,
+                (force_log, own, valid_min),
+                (handbuilt, siblings),
+            )| {
+                let mut c = assemble(filter, msg, suffix, borrowed, force_log, own, valid_min);
+                c.handbuilt = handbuilt;
+                c.siblings = siblings;
+                c
+            },
+        )
 }
 
 /// biases applied to a generated (filter, message) pair: more log messages (level rule), id lists that contain the
 /// message's own ids (so that later criteria decide), a minimum level inside 1..=6
-pub fn assemble(mut filter: Filter, mut msg: RMsg, suffix: Vec<u8>, borrowed: bool, force_log: bool, own: [bool; 3], valid_min: bool) -> Case {
-        // bias: more log messages (level rule), id lists that contain the message's own ids (so that later criteria decide)
-        if let Some(e) = &mut msg.ext {
-            // (only for types whose payload kind does not depend on the type: not network trace, not control)
-            if force_log && !matches!((e.msin >> 1) & 7, 2 | 3) {
-                e.msin &= 0xf1;
-            }
-            if let (true, Some(l)) = (own[0], &mut filter.app_ids) {
-                l.push(e.apid.clone());
-            }
-            if let (true, Some(l)) = (own[1], &mut filter.context_ids) {
-                l.push(e.ctid.clone());
-            }
+pub fn assemble(
+    mut filter: Filter,
+    mut msg: RMsg,
+    suffix: Vec<u8>,
+    borrowed: bool,
+    force_log: bool,
+    own: [bool; 3],
+    valid_min: bool,
+) -> Case {
+    // bias: more log messages (level rule), id lists that contain the message's own ids (so that later criteria decide)
+    if let Some(e) = &mut msg.ext {
+        // (only for types whose payload kind does not depend on the type: not network trace, not control)
+        if force_log && !matches!((e.msin >> 1) & 7, 2 | 3) {
+            e.msin &= 0xf1;
         }
-        if let (true, Some(l), Some(id)) = (own[2], &mut filter.ecu_ids, &msg.ecu) {
-            l.push(id.clone());
+        if let (true, Some(l)) = (own[0], &mut filter.app_ids) {
+            l.push(e.apid.clone());
         }
-        if let (true, Some(l)) = (valid_min, &mut filter.min_log_level) {
-            *l = 1 + *l % 6;
+        if let (true, Some(l)) = (own[1], &mut filter.context_ids) {
+            l.push(e.ctid.clone());
         }
-        Case { filter, msg, suffix, borrowed }
+    }
+    if let (true, Some(l), Some(id)) = (own[2], &mut filter.ecu_ids, &msg.ecu) {
+        l.push(id.clone());
+    }
+    if let (true, Some(l)) = (valid_min, &mut filter.min_log_level) {
+        *l = 1 + *l % 6;
+    }
+    Case {
+        filter,
+        msg,
+        suffix,
+        borrowed,
+        handbuilt: 0,
+        siblings: false,
+    }
 }
 
 pub fn run(run: &Run) {
@@ -189,11 +496,17 @@ pub fn run(run: &Run) {
          missing the message's ids from a small shared pool, counts = set size + {-1,0,+1}, 0, negative, huge; converted through the owned or the \
          borrowed From impl) x well-formed message (pool ids, all message types incl. invalid log levels, with/without ECU id and extended header) x \
          suffix; oracle = independent decision procedure written from the statement; dropped => FilteredOut(payload length) and the unfiltered \
-         remainder, kept => identical to the unfiltered parse; the same through read_message(reader, Some(filter)); non-trivial = at least one \
+         remainder, kept => identical to the unfiltered parse; the same through read_message(reader, Some(filter)); a quarter of the cases also as a stream 'sibling, message, sibling, message ..' (siblings differ in one header field: ECU / application / context id, level) through ONE reader and through repeated slice parsing, each verdict judged on its own; a third of the configurations are written as struct literals or rewritten after conversion; non-trivial = at least one \
          criterion present; distinct by the whole case",
     );
     run.regressions(&replay);
-    run.random("filter", run.cases(1_000_000, 12_000_000), 0.5, strategy, check);
+    run.random(
+        "filter",
+        run.cases(1_000_000, 12_000_000),
+        0.5,
+        strategy,
+        check,
+    );
 }
 
 pub fn replay(_section: &str, case: &Json) -> Option<CheckResult> {
